@@ -76,6 +76,7 @@ type replica struct {
 	ptxs     [][]byte
 	patxs    []evmutil.ATx
 	gate     bool
+	replay   bool // a crash inside OnCommit hit: the decided block awaits its re-execution (queries then see a torn commit: C06)
 	routines int
 	aborted  bool
 	accts    []int
@@ -244,6 +245,7 @@ func (r *replica) commit(si int) bool {
 	r.achain = append(r.achain, r.patxs)
 	r.key = chainKey(r.key, r.ptxs)
 	r.pending = nil
+	r.replay = false
 	r.record(commits, r.key, map[string]string{"AppHash": hex.EncodeToString(cr.AppHash), "ReceiptsHash": hex.EncodeToString(cr.ReceiptsHash)}, si, action, "")
 	// Info() must report what was committed
 	info := r.node.App.Info()
@@ -338,6 +340,7 @@ func (r *replica) crashCommit(si, j int) bool {
 		return false
 	}
 	r.pending = nil
+	r.replay = true
 	return true
 }
 
@@ -792,7 +795,7 @@ func main() {
 		}
 		histories[fmt.Sprintf("%s|%v|%d", r.key, restartsAt, r.routines)] = true
 		// final state queries of the primary
-		if !r.aborted && len(r.chain) > 0 {
+		if !r.aborted && len(r.chain) > 0 && !r.replay {
 			if qs, ok := r.stateQueries(len(tr.Steps)); ok {
 				r.record(queries, r.key, qs, len(tr.Steps), "Query(state,final)", "Query:")
 			}
